@@ -1,4 +1,4 @@
-import WorkflowModel.Lemmas.HistOps
+import WorkflowModel.Lemmas.Token
 /-! # Whole-history theorems: every reachable state, every run, every pair of consecutive writes
 
 `history_inv`: in every state the engine model reaches — by any interleaving of API calls, process operations under any
@@ -216,6 +216,60 @@ theorem C09_one_unfinished_run (i j : Nat) (x y : RunS) (hij : i < j)
     ∃ h t, x.hist = h :: t ∧ FinishedSpec h.runState :=
   (history_inv cfg h1 as hf).one i j x y hij hx hy hfid
 
+/-- C01: "each step's persisted effect is applied exactly once": no two writes of a run carry the same version - a second
+application of an effect would be a second write based on the same record, i.e. a second write with its version + 1. -/
+theorem C01_no_effect_twice (i k k' : Nat) (x : RunS) (w w' : Rec)
+    (hx : (runActs cfg {} as).runs[i]? = some x) (hw : x.hist[k]? = some w) (hw' : x.hist[k']? = some w')
+    (hv : w.version = w'.version) : k = k' := by
+  have hc := ((history_inv cfg h1 as hf).hist i x hx).chain
+  have e1 := chain_version x.hist k w hc hw
+  have e2 := chain_version x.hist k' w' hc hw'
+  have l1 := (List.getElem?_eq_some_iff.mp hw).1
+  have l2 := (List.getElem?_eq_some_iff.mp hw').1
+  rw [hv] at e1
+  womega
+
+/-- C01 / C04 / C07: in any reachable state, a delivery to a step consumer that ends with the acknowledgement (a normal return
+of `deliver`; any fault plan, any outcomes that neither re-enter the API nor answer with a skip value) leaves legal histories
+and either the event belonged to another shard, or the announced version needs no further handling: the run is no longer
+persisted Initiated/Running at that version - it had moved on already (old announcement), it is stopped, or this very
+operation persisted the step's effect, the pause/cancel the function asked for, or the auto-pause. An announcement that still
+describes the live run is therefore never acknowledged away ("no run is left stranded with an unprocessed change"). -/
+theorem C01_step_ack_means_handled (env : Env) (hn : NoNested env) (hs : NoSkip env) (hz : env.stale = 0)
+    (s : Status) (shard total : Int) (idx : Nat) (e : Event)
+    (hok : (runM (deliver cfg (.step s shard total) idx e) env (runActs cfg {} as) false).1 = .ok ()) :
+    Inv cfg (runM (deliver cfg (.step s shard total) idx e) env (runActs cfg {} as) false).2.sys ∧
+    (filteredOut (.step s shard total) idx e = true ∨
+      ∀ w, (runM (deliver cfg (.step s shard total) idx e) env (runActs cfg {} as) false).2.sys.cur e.runId = some w →
+        (w.runState = 1 ∨ w.runState = 2) → w.version ≠ e.version) := by
+  have hi := history_inv cfg h1 as hf
+  obtain ⟨a1, _, a3⟩ := deliver_step_done (cfg := cfg) hn hs s shard total idx e
+    { sys := runActs cfg {} as, stale := env.stale, isApi := false } hi hz trivial
+  refine ⟨a1, ?_⟩
+  rcases a3 () hok with h | h
+  · exact Or.inl h
+  · exact Or.inr (fun w hw hl => h w hw hl)
+
+/-- C15 / C07: in any reachable state, a delivery of a published delete request to the delete consumer that ends with the
+acknowledgement leaves the run persisted DataDeleted (any fault plan, any outcome of the custom delete function): an accepted
+deletion request is never acknowledged away before it has been executed. -/
+theorem C15_ack_means_deleted (env : Env) (hz : env.stale = 0) (idx : Nat) (e : Event)
+    (he : e ∈ (runActs cfg {} as).log) (hk : e.topicKind = 1)
+    (hok : (runM (deliver cfg .delete idx e) env (runActs cfg {} as) false).1 = .ok ()) :
+    ∃ w, (runM (deliver cfg .delete idx e) env (runActs cfg {} as) false).2.sys.cur e.runId = some w ∧ w.runState = 6 := by
+  have hi := history_inv cfg h1 as hf
+  have hd : HT cfg env (fun R => HasRDD R e.runId) (deliver cfg .delete idx e)
+      (fun _ R => ∃ h, curR R e.runId = some h ∧ h.runState = 6) := by
+    unfold deliver
+    split
+    · rename_i hfo
+      simp [filteredOut] at hfo
+    · unfold handle
+      exact HT.bind (deleteHandle_done e) (fun _ => HT.ack _ idx)
+  obtain ⟨_, _, a3⟩ := hd { sys := runActs cfg {} as, stale := env.stale, isApi := false } hi hz
+    (hasRDD_of_delete_event hi he hk)
+  exact a3 () hok
+
 /-- C05 + histories: in every reachable state every write is pending in the outbox or published, and nothing else is. -/
 theorem C05_relay_with_history : RelayInv (runActs cfg {} as) := (history_inv cfg h1 as hf).relay
 
@@ -291,5 +345,81 @@ theorem reentry_breaks_history :
 theorem two_timeouts_break_history :
     summary cfgT asTwo = [[(2, 2, 1, 6), (2, 2, 1, 5), (1, 1, 1, 5)]] ∧ ¬ Inv cfgT (runActs cfgT {} asTwo) :=
   ⟨by decide +kernel, illegal_of_histOK_false (by decide +kernel)⟩
+
+
+/-! ## no run is stranded at a step (C01)
+
+`C01_no_stranded_step`: in every reachable state, every run whose persisted record is Initiated or Running has the
+announcement of exactly that record pending - in the outbox, or published at a position that no step-consumer process of the
+record's status which handles it (its shard) has passed. Hypotheses beyond `history_inv`'s: step functions do not answer with a
+skip value (a skip consumes the event by design), no adversarial cursor rewind, no consume lag on steps (a consumer waiting
+for the lag holds an event in hand; not covered). Together with `history_inv` (the pending announcement is of the CURRENT
+version, so the version gate lets it through) and the relay invariant this is the safety half of "every run ends as in a
+fault-free execution": whatever faults happened, the work that remains is still queued in front of a consumer that will take
+it. The liveness half (fair scheduling, eventually succeeding functions) is enumerated, not proved (sim-recovery). -/
+
+def FreshAct2 : Act → Prop
+  | .step p env => FreshEnv env ∧ (IsStep p = true → NoSkip env)
+  | .rewind _ _ => False
+  | a => FreshAct a
+
+theorem freshAct_of_2 {a : Act} (h : FreshAct2 a) : FreshAct a := by
+  cases a <;> simp only [FreshAct2, FreshAct] at * <;> first | exact h.1 | exact h | trivial
+
+theorem stepAct_tok {cfg : Cfg} (h1 : OneTimeout cfg) (hlag : NoStepLag cfg) (s : Sys) (a : Act) (hf : FreshAct2 a)
+    (hi : Inv cfg s) (ht : TokInv s) : TokInv (stepAct cfg s a).sys := by
+  cases a with
+  | step p env =>
+    simp only [stepAct]
+    split
+    · cases hp : IsStep p with
+      | true =>
+        cases p <;> simp [IsStep] at hp
+        exact procOp_step_tok hf.1.2 (hf.2 rfl) hlag _ _ _ { sys := s, stale := env.stale, isApi := false } hi hf.1.1 ht
+      | false => exact (procOp_other_RT (cfg := cfg) p hp env { sys := s, stale := env.stale, isApi := false } ⟨hi.relay, ht⟩).2
+    · exact ht
+  | lease p => exact leaseLossOp_tok (cfg := cfg) p {} { sys := s, stale := 0, isApi := false } ht
+  | trigger fid start n env =>
+    simp only [stepAct, apiOut_sys, runM]
+    exact Pres.triggerApi (TokInv.stableH cfg) fid start n env _ ht
+  | callback fid status env =>
+    simp only [stepAct, apiOut_sys, runM]
+    have hc : Pres TokInv (do callbackApi cfg fid status fuelDefault; (Pure.pure "ok" : M String)) :=
+      Pres.bind (Pres.callbackApi (TokInv.stableH cfg) _ _ _) (fun _ => Pres.pure _)
+    exact hc env _ ht
+  | ctl rid op env =>
+    simp only [stepAct, apiOut_sys, runM]
+    exact Pres.ctlFreshApi (TokInv.stableH cfg) rid op env _ ht
+  | handle rid =>
+    simp only [stepAct, apiOut_sys, runM]
+    exact Pres.handleApi (TokInv.stableH cfg) rid {} _ ht
+  | hctl h op env => exact hf.elim
+  | tick sec => exact ht.tick sec
+  | rewind p idx => exact hf.elim
+  | dup idx =>
+    simp only [stepAct]
+    split
+    · exact ht.relaySend _
+    · exact ht
+
+theorem token_inv {cfg : Cfg} (h1 : OneTimeout cfg) (hlag : NoStepLag cfg) : ∀ (as : List Act) (s : Sys), (∀ a ∈ as, FreshAct2 a) →
+    Inv cfg s → TokInv s → Inv cfg (runActs cfg s as) ∧ TokInv (runActs cfg s as)
+  | [], _, _, hi, ht => ⟨hi, ht⟩
+  | a :: as, s, hf, hi, ht =>
+    have ha := hf a (List.mem_cons_self ..)
+    token_inv h1 hlag as _ (fun b hb => hf b (List.mem_cons_of_mem _ hb)) (stepAct_inv h1 s a (freshAct_of_2 ha) hi)
+      (stepAct_tok h1 hlag s a ha hi ht)
+
+/-- **No run is stranded at a step.** -/
+theorem C01_no_stranded_step (cfg : Cfg) (h1 : OneTimeout cfg) (hlag : NoStepLag cfg) (as : List Act) (hf : ∀ a ∈ as, FreshAct2 a)
+    (rid : RunId) (w : Rec) (hw : (runActs cfg {} as).cur rid = some w) (hl : w.runState = 1 ∨ w.runState = 2) :
+    PendingAt (runActs cfg {} as) w :=
+  (token_inv h1 hlag as {} hf ⟨HistInv.init cfg, RelayInv.init, fun i j x y _ hx => by simp at hx⟩ TokInv.init).2.pending rid w hw hl
+
+/-- non-vacuity: after trigger and relay the announcement is published and ahead of the (not yet started) consumer; after the
+consumer handled it the run is Completed and nothing is required any more -/
+theorem nonvacuous_token :
+    ((runActs cfgW {} [.trigger 0 1 5 {}, .step .outbox {}]).outbox.length, (runActs cfgW {} [.trigger 0 1 5 {}, .step .outbox {}]).log.length,
+      (runActs cfgW {} [.trigger 0 1 5 {}, .step .outbox {}]).cursor sp) = (0, 1, 0) := by decide +kernel
 
 end WorkflowModel.History
